@@ -29,7 +29,13 @@ func c10Bound(n int) int { return 12*n + 5 }
 
 func genC10(t *rapid.T) c10Scenario {
 	kind := rapid.SampledFrom([]string{"hwmon", "hwmon", "file"}).Draw(t, "kind")
+	if rare(t, "cmdFan", envInt("VERIF_CMD_SHARE", 1)) {
+		kind = "cmd"
+	}
 	n := rapid.OneOf(rapid.IntRange(1, 50), rapid.SampledFrom([]int{1, 2, 10, 50})).Draw(t, "window")
+	if kind == "cmd" {
+		n = 1 + n%3
+	}
 	A := rapid.SampledFrom([]int{0, 1, 300, 3000, 10000}).Draw(t, "A")
 	fan := sim.FanSpec{Kind: kind, NeverStop: true, PwmMap: identityMap(), OrigMode: rapid.SampledFrom([]int{0, 1, 2, 5}).Draw(t, "origMode"),
 		OrigPwm: rapid.IntRange(0, 255).Draw(t, "origPwm"), RpmAvg0: float64(A)}
@@ -54,7 +60,7 @@ func genC10(t *rapid.T) c10Scenario {
 			fan.MaxPwm = ip(mx)
 		}
 	}
-	if kind == "file" && theta == 256 {
+	if kind != "hwmon" && theta == 256 {
 		theta = rapid.IntRange(1, 30).Draw(t, "thetaFile") // 255 raises of a file fan would only repeat (ii)
 	}
 	tick := rapid.SampledFrom([]int{100, 200, 500}).Draw(t, "tickMs")
@@ -71,6 +77,12 @@ func genC10(t *rapid.T) c10Scenario {
 	stall := (raises + 1) * (c10Bound(n) + 2) * ppt
 	if stall > 40000 {
 		stall = 40000
+	}
+	if kind == "cmd" {
+		// script based fan: small window, few raises, so that the case stays within a few hundred cycles
+		if stall > 120 {
+			stall = 120
+		}
 	}
 	for i := 0; i < spin+stall; i++ {
 		s := sim.Step{Curve: cv}
